@@ -123,9 +123,18 @@ func resolutionSummary(r *docdid.DocResolution) M {
 // vdrKind: C17 — VDR.Create (twice, on fresh instances) and VDR.Read of the created DID.
 func vdrKind(c *proto.Case) interface{} {
 	mk := func() (*docdid.DocResolution, *sidetreelongform.VDR, error) {
-		v, err := sidetreelongform.New(sidetreelongform.WithDIDMethod(c.Str("method")))
-		if err != nil {
-			panic("harness: VDR.New: " + err.Error())
+		newVDR := func() *sidetreelongform.VDR {
+			v, err := sidetreelongform.New(sidetreelongform.WithDIDMethod(c.Str("method")))
+			if err != nil {
+				panic("harness: VDR.New: " + err.Error())
+			}
+			return v
+		}
+		var v *sidetreelongform.VDR
+		if Shared {
+			v = shared("vdr|"+c.Str("method"), func() interface{} { return newVDR() }).(*sidetreelongform.VDR)
+		} else {
+			v = newVDR()
 		}
 		r, err := v.Create(docFromCase(proto.Obj(c.Body["doc"]), propsPool{}),
 			vdrapi.WithOption(sidetreelongform.UpdatePublicKeyOpt, pubKeyFromCase(c.Body["updateKey"])),
